@@ -252,20 +252,35 @@ func checkAgainstReference(s *RunSpec, conc, ref *world, out []Violation) []Viol
 						"isolated reference (expected) vs result under the simulated schedule (actual); the sequential same-history result differs too"))
 				}
 			}
-			if conc != nil {
+			// Block headers after an XR-reaching Marshal are compared only when the Marshal succeeded in
+			// both worlds: a Marshal that fails before it reaches an ExtendedReport (compound grammar,
+			// an earlier member that cannot be encoded) leaves that report's headers as they were, and
+			// "as they were" legitimately differs between an object with a history and its twin.
+			okBoth := func(a, b *opResult) bool { return !hasFailure(a) && !hasFailure(b) }
+			if conc != nil && okBoth(&conc.res[t][i], ri) {
 				cp := conc.res[t][i].postSem
 				if cp != ri.postSem && !conc.res[t][i].skipped && !ri.skipped {
 					out = append(out, mkViol(s, ref, "O2", "a: XR block headers after Marshal differ from the reference", "concurrent", t, i, ri.postSem, cp,
 						"semantic dump of the packet after an XR-reaching Marshal (headers must equal those the reference computes)"))
 				}
 			}
-			if rs.postSem != ri.postSem && !rs.skipped && !ri.skipped {
+			if okBoth(rs, ri) && rs.postSem != ri.postSem && !rs.skipped && !ri.skipped {
 				out = append(out, mkViol(s, ref, "O6", "c: XR block headers after Marshal depend on history", "sequential", t, i, ri.postSem, rs.postSem,
 					"semantic dump of the packet after an XR-reaching Marshal"))
 			}
 		}
 	}
 	return out
+}
+
+// hasFailure reports whether an operation returned an error or panicked.
+func hasFailure(r *opResult) bool {
+	for i := range r.parts {
+		if (r.parts[i].kind == ptErr && r.parts[i].err != nil) || r.parts[i].kind == ptPanic {
+			return true
+		}
+	}
+	return false
 }
 
 // checkRefAgreement compares two reference passes (before and after the concurrent phase).
